@@ -34,6 +34,21 @@ CHECKS = {
         "64-bit path only (MurmurHash64B/ARM not modelled).",
    technique="Lean 4 proof (hash_eq_reference, reads_in_bounds) + correspondence run",
    design="6/C14"),
+ "C15": dict(
+   text="Kernel-checked Lean theorems over a controller model of WriteStream::write/flush and ReadStream::Read in which the codec "
+        "(zlib, bzip2, liblzma) is an oracle, i.e. for every sequence of codec answers: the bytes handed to the file plus those in the "
+        "4 KiB buffer are exactly the bytes the codec produced, in order (nothing lost/duplicated/reordered at buffer turns); after a "
+        "flush everything is in the file, all input was consumed and a stream was finished; a never-written stream still emits a "
+        "member; the codec is never called with less than its minimum output space; the reader cannot spin (codec calls bounded by "
+        "input supplied + Read calls under the progress contract, tight) and a no-progress call at end of file ends in the "
+        "truncated-stream error; Read never returns more than asked. The same definitions accept the PV_TRACE logs of the real code "
+        "with the real codecs. Validity/interoperability of the codec output is checked with independent decoders: Python "
+        "zlib/bz2/lzma and the gzip/bzip2 tools, write/flush scripts, multi-member and mixed-format reads under scripted "
+        "fragmentation, every truncation point of small streams, GZCompress for sizes to 70000.",
+   note="Trusted: Lean kernel + standard axioms; the codecs are oracles (their answers come from the trace), their correctness is "
+        "differential, not proved; bounded correspondence runs.",
+   technique="Lean 4 proof over a controller model with the codec as oracle + trace acceptance + independent decoders",
+   design="6/C15"),
  "C16": dict(
    text="Kernel-checked Lean theorems over three labelled transition systems at semaphore granularity, for every interleaving: "
         "PCQueue (any capacity >= 1, any number of producers/consumers and items): a slot is never written while live or being "
@@ -133,6 +148,21 @@ CHECKS = {
         "compared as C02 records; bounded differential execution.",
    technique="Lean 4 proof (cache_output_spec, child_sees_firstOcc) + correspondence run with logging children and trace acceptance",
    design="6/C04"),
+ "C05": dict(
+   text="Kernel-checked Lean theorems over a labelled transition system of feeder thread, collector thread, child process and the two "
+        "bounded pipes, for all interleavings, all buffer/pipe capacities >= 1, all record sizes in chunks (incl. records larger than "
+        "both pipes), every release policy of a one-answer-per-chunk child and every read-ahead bound: with the entry produced before "
+        "the record is written (what the three tools do after the cache repair) no reachable state is stuck before completion, the "
+        "collector's error branches are unreachable (for the peeking wrapper under the proved-necessary hypothesis that records send "
+        ">= 1 chunk, which C07.pieces_nonempty gives), every execution is finite, answers are consumed in order without shift and the "
+        "final output is complete; every run projects onto a visible-event automaton; and with the entry produced after the write a "
+        "record larger than buffer+pipes deadlocks (the repaired cache defect, proved with an explicit trace). Tied to the real "
+        "binaries by PV_TRACE event logs (scripted children, sizes around the flush interval, beyond pipe capacity, single lines "
+        "> 1 MiB, scheduling jitter) that must be accepted by the visible-event automaton, with complete ordered output in time.",
+   note="Trusted: Lean kernel + standard axioms; real-system-within-LTS is validated on the visible events only (child and pipe steps "
+        "are not observable); the OS scheduler is sampled for the binaries, the enumeration over schedules is in the proof.",
+   technique="Lean 4 proof over an LTS (invariant, progress, measure, refinement) + PV_TRACE trace acceptance on the real binaries",
+   design="6/C05"),
  "C01": dict(
    text="Kernel-checked Lean theorems: the dedupe loop over the proved hash-table model (C13) writes exactly the first-occurrence "
         "lines of any input for any key function without a zero hash, in input order (hence sublist, no key twice, every key once, "
